@@ -268,6 +268,63 @@ def slotEq : Slot → Slot → Option Bool
   | .wg u1 g, .wg u2 h => if u1 == u2 then some (g.g.dEq h.g) else none
   | _, _ => none
 
+
+def joinOptNat (l : List (Option Nat)) : String :=
+  " ".intercalate (l.map (fun o => match o with | some x => toString x | none => "inf"))
+def showPath (p : List Nat) : String := if p.isEmpty then "-" else ",".intercalate (p.map toString)
+def showPaths (ps : List (List Nat)) : String := if ps.isEmpty then "-" else " ".intercalate (ps.map showPath)
+
+/-- path-search verbs on a slot -/
+def algo (sl : Slot) (verb : String) (args : List String) : Option (List String) :=
+  let simple : Option (Bool × G Int) := match sl with
+    | .gr und g => some (und, g)
+    | _ => none
+  match verb, args, simple, sl with
+  | "bfs", [s], some (_, g), _ => do
+    let s ← nat? s
+    match findVertexPredecessors g s with
+    | .ok r => pure ["R ok", s!"P dist: {joinNat r.dist} | pred: {joinNat r.pred} | scans: {joinNat r.scans} | VE: {g.size} {g.sumLen}"]
+    | .threw e => pure ["R !" ++ e.name]
+    | .ub => pure ["R !UB"]
+  | "allpred", [s], some (_, g), _ => do
+    let s ← nat? s
+    match findAllVertexPredecessors g s with
+    | .ok r => pure ["R ok", s!"P dist: {joinNat r.dist} | preds: {" ".intercalate (r.preds.map showPath)} | scans: {joinNat r.scans} | VE: {g.size} {g.sumLen}"]
+    | .threw e => pure ["R !" ++ e.name]
+    | .ub => pure ["R !UB"]
+  | "geodesic", [s, t], some (_, g), _ => do
+    let s ← nat? s; let t ← nat? t
+    pure ["R " ++ showRes (fun p => "ok path: " ++ showPath p) (findGeodesics g s t)]
+  | "allgeodesics", [s, t], some (_, g), _ => do
+    let s ← nat? s; let t ← nat? t
+    pure ["R " ++ showRes (fun p => "ok paths: " ++ showPaths p) (findAllGeodesics g s t)]
+  | "geodesicsfrom", [s], some (_, g), _ => do
+    let s ← nat? s
+    pure ["R " ++ showRes (fun ps => "ok from: " ++ " ".intercalate (ps.map showPath)) (findGeodesicsFromVertex g s)]
+  | "allgeodesicsfrom", [s], some (_, g), _ => do
+    let s ← nat? s
+    pure ["R " ++ showRes (fun pss => "ok allfrom: " ++ " | ".intercalate (pss.map showPaths)) (findAllGeodesicsFromVertex g s)]
+  | "dijkstra", s :: "pops" :: pops, _, .wg und w => do
+    let s ← nat? s; let pops ← natList pops
+    if !wgNonNeg w then pure ["R !negative-weight"] else
+    match findGeodesicsDijkstra und w s pops with
+    | .ok (some r) => pure (["R ok", s!"P dist: {joinOptNat r.dist} | pred: {joinNat r.pred} | scans: {pops.length} | VE: {w.g.size} {w.g.sumLen}"]
+        ++ (if r.allMin then [] else ["T a popped vertex was not a minimum of the worklist (heap order violated)"]))
+    | .ok none => pure ["R !illegal-pop-order"]
+    | .threw e => pure ["R !" ++ e.name]
+    | .ub => pure ["R !UB"]
+  | "dijkstra", [s], _, .wg und w => do
+    -- no oracle: only the rejected-call case can be answered
+    let s ← nat? s
+    match findGeodesicsDijkstra und w s [] with
+    | .threw e => pure ["R !" ++ e.name]
+    | _ => pure ["R !needs-pop-oracle"]
+  | _, _, _, _ => none
+
+def isAlgoVerb (v : String) : Bool :=
+  v == "bfs" || v == "allpred" || v == "geodesic" || v == "allgeodesics" || v == "geodesicsfrom" ||
+  v == "allgeodesicsfrom" || v == "dijkstra"
+
 def ofRes {α} (r : Res α) (f : α → Slot) : Slot × String :=
   match r with
   | .ok a => (f a, "ok")
@@ -330,6 +387,13 @@ def step (ss : Slots) (line : String) : Slots × List String :=
           (ss, ("R " ++ out) :: (dumpSlot a src ++ dumpSlot b sl))
         | none => (ss, [bad])
       | _, _ => (ss, [bad])
+    else if isAlgoVerb verb then
+      match nat? a with
+      | some s =>
+        match algo (getSlot ss s) verb [b] with
+        | some outs => (ss, outs)
+        | none => (ss, [bad])
+      | none => (ss, [bad])
     else
       match nat? a with
       | some s =>
@@ -376,26 +440,43 @@ def step (ss : Slots) (line : String) : Slots × List String :=
   | verb :: s :: args =>
     match nat? s with
     | some s =>
+      if isAlgoVerb verb then
+        match algo (getSlot ss s) verb args with
+        | some outs => (ss, outs)
+        | none => (ss, [bad])
+      else
       match mutate (getSlot ss s) verb args with
       | some (sl, out) => let ss := setSlot ss s sl; (ss, ("R " ++ out) :: dumpSlot s sl)
       | none => (ss, [bad])
     | none => (ss, [bad])
   | _ => (ss, [bad])
 
-partial def loop (h : IO.FS.Stream) (out : IO.FS.Stream) (ss : Slots) : IO Unit := do
+/-- dump lines (everything that is not an outcome line) are suppressed in quiet mode, except for
+an explicit `dump` request -/
+def isDumpLine (l : String) : Bool := !(l.startsWith "R " || l.startsWith "P " || l.startsWith "T " || l == bad)
+
+partial def loop (h : IO.FS.Stream) (out : IO.FS.Stream) (ss : Slots) (quiet : Bool) : IO Unit := do
   let line ← h.getLine
   if line.isEmpty then return ()
   let t := line.trimAscii.toString
   if t.isEmpty || t.startsWith "#" then
-    loop h out ss
+    loop h out ss quiet
   else if t == "reset" then
     out.putStrLn "R reset"
-    loop h out #[]
+    loop h out #[] false
+  else if t == "mode quiet" then
+    out.putStrLn "> mode quiet"
+    loop h out ss true
+  else if t == "mode verbose" then
+    out.putStrLn "> mode verbose"
+    loop h out ss false
   else
     let (ss', outs) := step ss line
     out.putStrLn ("> " ++ t)
-    for o in outs do out.putStrLn o
-    loop h out ss'
+    let explicit := t.startsWith "dump "
+    for o in outs do
+      if !quiet || explicit || !isDumpLine o then out.putStrLn o
+    loop h out ss' quiet
 
 def main : IO Unit := do
-  loop (← IO.getStdin) (← IO.getStdout) #[]
+  loop (← IO.getStdin) (← IO.getStdout) #[] false
